@@ -9,4 +9,6 @@ trap 'rm -rf "$S"' EXIT
 make_scratch "$S/src"
 (cd "$S/src" && go build -o "$S/verifsim" ./internal/verifsim/cmd/verifsim) || infra "harness build failed"
 (cd "$S/src" && go build -race -o "$S/verifsim.race" ./internal/verifsim/cmd/verifsim) || infra "race build failed"
+# warm the cache of the race build with the sync.Pool overlay the C16 check uses (paths must match: built through ./check)
+VERIF_RUNS=16 ./check C16 quick >/dev/null 2>&1 || true
 echo "setup ok"
